@@ -5,6 +5,7 @@
 From Coq Require Import ZArith Bool List SpecFloat.
 From Verif.Base Require Import F64.
 From Verif.C05 Require Import Model Proofs Proofs2 Proofs3 Proofs4 Proofs5 Refuted.
+From Verif.C05 Require GoSem LeafGen LeafTie.
 Local Open Scope Z_scope.
 
 (* 1. one mathematical value has exactly one canonical, well-formed representation *)
@@ -112,3 +113,71 @@ Print Assumptions floatToValue_wf.
 Print Assumptions of_Z_safe_valid.
 Print Assumptions wf_closed_given_prims.
 Print Assumptions sameAs_noncanonical_asymmetric.
+
+(* 9. the leaf layer AS TRANSLATED FROM THE GO SOURCE (C05/LeafGen.v, regenerated by harness/cmd/go2v on every run of the
+      check) equals the model the theorems above are about: for all arguments in the range of their Go type / all
+      well-formed float payloads.  Hence sections 2, 3 and 7 hold of the code of these functions as it is now. *)
+Theorem leaf_intToValue : forall i, GoSem.in_int64 i -> LeafGen.intToValue_gen i = intToValue i.
+Proof. exact LeafTie.intToValue_gen_tie. Qed.
+Theorem leaf_intToValue_bounds : forall rf ri i, LeafGen.intToValue_bounds rf ri i = true.
+Proof. exact LeafTie.intToValue_bounds_ok. Qed.
+Theorem leaf_floatToValue : forall f, valid f = true -> LeafGen.floatToValue_gen f = floatToValue f.
+Proof. exact LeafTie.floatToValue_gen_tie. Qed.
+Theorem leaf_floatToInt : forall f, valid f = true ->
+  LeafGen.floatToInt_gen f = match floatToInt f with Some k => (k, true) | None => (0, false) end.
+Proof. exact LeafTie.floatToInt_gen_tie. Qed.
+Theorem leaf_floatToInt64Mod32 : forall f, valid f = true -> LeafGen.floatToInt64Mod32_gen f = floatToInt64Mod32 f.
+Proof. exact LeafTie.floatToInt64Mod32_gen_tie. Qed.
+Theorem leaf_toInt8 : forall a, wf a = true -> LeafGen.toInt8_gen a = toIntN true 8 a.
+Proof. exact LeafTie.toInt8_gen_tie. Qed.
+Theorem leaf_toUint8 : forall a, wf a = true -> LeafGen.toUint8_gen a = toIntN false 8 a.
+Proof. exact LeafTie.toUint8_gen_tie. Qed.
+Theorem leaf_toInt16 : forall a, wf a = true -> LeafGen.toInt16_gen a = toIntN true 16 a.
+Proof. exact LeafTie.toInt16_gen_tie. Qed.
+Theorem leaf_toUint16 : forall a, wf a = true -> LeafGen.toUint16_gen a = toIntN false 16 a.
+Proof. exact LeafTie.toUint16_gen_tie. Qed.
+Theorem leaf_toInt32 : forall a, wf a = true -> LeafGen.toInt32_gen a = toInt32 a.
+Proof. exact LeafTie.toInt32_gen_tie. Qed.
+Theorem leaf_toUint32 : forall a, wf a = true -> LeafGen.toUint32_gen a = toUint32 a.
+Proof. exact LeafTie.toUint32_gen_tie. Qed.
+Theorem leaf_toInt64 : forall a, LeafGen.toInt64_gen a = LeafTie.toInt64_ref a.
+Proof. exact LeafTie.toInt64_gen_tie. Qed.
+Theorem leaf_toUint64 : forall a, LeafGen.toUint64_gen a = LeafTie.toUint64_ref a.
+Proof. exact LeafTie.toUint64_gen_tie. Qed.
+Theorem leaf_toUint8Clamp : forall a, LeafGen.toUint8Clamp_gen a = toUint8Clamp a.
+Proof. exact LeafTie.toUint8Clamp_gen_tie. Qed.
+Theorem leaf_floatToIntClip : forall n, LeafGen.floatToIntClip_gen n = floatToIntClip n.
+Proof. exact LeafTie.floatToIntClip_gen_tie. Qed.
+Theorem leaf_ToInteger : forall a, LeafGen.Value_ToInteger_gen a = toInteger a.
+Proof. exact LeafTie.Value_ToInteger_gen_tie. Qed.
+Theorem leaf_toLength : forall a, LeafGen.toLength_gen a = toLength a.
+Proof. exact LeafTie.toLength_gen_tie. Qed.
+Theorem leaf_relToIdx : forall rel l, GoSem.in_int64 rel -> 0 <= l <= two53 ->
+  LeafGen.relToIdx_gen rel l = (if 0 <=? rel then Z.min rel l else Z.max (l + rel) 0) /\
+  0 <= LeafGen.relToIdx_gen rel l <= l.
+Proof. exact LeafTie.relToIdx_gen_spec. Qed.
+Theorem leaf_toIdx : forall v,
+  LeafGen.toIdx_gen v = (if (0 <=? v) && (v <? 4294967295) then v else 4294967295) /\
+  0 <= LeafGen.toIdx_gen v <= 4294967295.
+Proof. exact LeafTie.toIdx_gen_spec. Qed.
+Theorem leaf_toIntStrict : forall i, LeafGen.toIntStrict_gen i = i.
+Proof. exact LeafTie.toIntStrict_gen_id. Qed.
+Theorem leaf_toIntClamp : forall i, LeafGen.toIntClamp_gen i = i.
+Proof. exact LeafTie.toIntClamp_gen_id. Qed.
+(* transfer, spelled out for two of them *)
+Theorem leaf_intToValue_canon : forall i, GoSem.in_int64 i -> canon (LeafGen.intToValue_gen i) = true.
+Proof. exact LeafTie.intToValue_gen_canon. Qed.
+Theorem leaf_toInt32_eq_spec : forall a, canon a = true -> wf a = true -> LeafGen.toInt32_gen a = ToInt32_spec (val a).
+Proof. exact LeafTie.toInt32_gen_eq_spec. Qed.
+(* the generated file reports no function outside the translatable subset *)
+Theorem leaf_all_translated : LeafGen.untranslated = nil.
+Proof. reflexivity. Qed.
+
+Print Assumptions leaf_intToValue.
+Print Assumptions leaf_floatToValue.
+Print Assumptions leaf_floatToInt64Mod32.
+Print Assumptions leaf_toInt32.
+Print Assumptions leaf_toUint8Clamp.
+Print Assumptions leaf_toLength.
+Print Assumptions leaf_relToIdx.
+Print Assumptions leaf_toInt32_eq_spec.
